@@ -125,3 +125,24 @@ def leaves(v):
             yield from leaves(kv[1])
     else:
         yield v
+
+
+def from_json(x):
+    """Python JSON value -> sexp value (integers as machine integers when they fit)."""
+    if x is None:
+        return NULL
+    if x is True:
+        return TRUE
+    if x is False:
+        return FALSE
+    if isinstance(x, int):
+        return I(x) if ISIZE_MIN <= x <= ISIZE_MAX else B(x)
+    if isinstance(x, float):
+        return F(x)
+    if isinstance(x, str):
+        return S(x.encode("utf-8"))
+    if isinstance(x, list):
+        return A(*[from_json(y) for y in x])
+    if isinstance(x, dict):
+        return O(*[(S(k.encode("utf-8")), from_json(v)) for k, v in x.items()])
+    raise ValueError(x)
